@@ -38,6 +38,17 @@ class Attempt(object):
         return dict(line=self.line, reads=[list(map(repr, r)) for r in self.reads], outcome=repr(self.outcome))
 
 
+class Membership(object):
+    """what a logged `name in accessor` saw (not the value of the name)"""
+    __slots__ = ('result',)
+
+    def __init__(self, result):
+        self.result = result
+
+    def __repr__(self):
+        return f'in:{self.result}'
+
+
 class LogAccessor(Mapping):
     def __init__(self, inner, form, kind, rec):
         self.inner, self.form, self.kind, self.rec = inner, form, kind, rec
@@ -51,6 +62,28 @@ class LogAccessor(Mapping):
             raise
         self.rec.reads.append((self.kind, full, 'ok', val))
         return val
+
+    # membership and get() are asked of the real accessor, not re-derived from __getitem__ here: an accessor that
+    # answers them in its own way must be seen doing so
+    def __contains__(self, key):
+        full = key if '.' in key else f'{self.form.name()}.{key}'
+        try:
+            r = key in self.inner
+        except BaseException as e:
+            self.rec.reads.append((self.kind, full, type(e).__name__, None))
+            raise
+        self.rec.reads.append((self.kind, full, 'ok' if r else 'absent', Membership(r)))
+        return r
+
+    def get(self, key, default=None):
+        full = key if '.' in key else f'{self.form.name()}.{key}'
+        try:
+            r = self.inner.get(key, default)
+        except BaseException as e:
+            self.rec.reads.append((self.kind, full, type(e).__name__, None))
+            raise
+        self.rec.reads.append((self.kind, full, 'ok', r))
+        return r
 
     def __iter__(self):
         return iter(self.inner)
